@@ -247,3 +247,54 @@ Theorem C09_handlers_one_section :
   forall t, LockDiscipline.trace_of s t -> SectionShape.one_section_ok (SectionShape.mode_of_method name) t.
 Proof. exact C09Skeleton.handlers_one_section. Qed.
 Print Assumptions C09_handlers_one_section.
+
+(* ---------------------------------------------------------------- static facts the argument rests on (regenerated, tie T) *)
+From Coq Require Import String.
+Require RV.Model.StaticFacts RV.Proofs.C09Static RV.Gen.C09Static.
+
+(* Several server processes sharing one storage folder exclude each other only if they lock THE SAME file: the lock
+   file of the current source is <filesystem_folder>/.Radicale.lock whatever the cache folder is, and no code of the
+   storage layer removes, renames or replaces it (a removed lock file = later requests lock a new inode). *)
+Theorem C09_lock_file_identity : forall c1 c2,
+  StaticFacts.storage_folder c1 = StaticFacts.storage_folder c2 ->
+  StaticFacts.lock_file c1 C09Static.lock_path = StaticFacts.lock_file c2 C09Static.lock_path /\
+  StaticFacts.lock_file c1 C09Static.lock_path = Some (StaticFacts.storage_folder c1, ".Radicale.lock"%string).
+Proof. exact C09Static.lock_file_identity. Qed.
+Print Assumptions C09_lock_file_identity.
+
+Theorem C09_lock_file_never_unlinked : C09Static.lock_unlink_sites = [].
+Proof. exact C09Static.Gen_lock_never_unlinked. Qed.
+Print Assumptions C09_lock_file_never_unlinked.
+
+(* Readers are not side-effect free: under the SHARED lock they write cache and sync-token files through
+   _atomic_write.  With fresh temporary names (the current source: TemporaryDirectory) two concurrent writers of
+   one target never disturb each other, under every interleaving of their open / write / rename steps; with one
+   fixed temporary name a rename fails (500) or a truncated file is published. *)
+Theorem C09_atomic_write_fresh :
+  C09Static.atomic_write_tmp = StaticFacts.TmpFreshDir /\
+  forall sch, In sch StaticFacts.aw_merges ->
+    StaticFacts.aw_good "token"%string ".tmp-a/token"%string ".tmp-b/token"%string sch = true.
+Proof. exact (conj C09Static.Gen_atomic_write_fresh C09Static.atomic_write_fresh_ok). Qed.
+Print Assumptions C09_atomic_write_fresh.
+
+Theorem C09_atomic_write_fixed_name_refuted :
+  (exists sch, In sch StaticFacts.aw_merges /\
+     StaticFacts.aw_run "token"%string sch StaticFacts.aw_empty (StaticFacts.new_writer ".tmp-token"%string 1%N)
+                        (StaticFacts.new_writer ".tmp-token"%string 2%N) = None) /\
+  (exists sch fs a b, In sch StaticFacts.aw_merges /\
+     StaticFacts.aw_run "token"%string (firstn 4 sch) StaticFacts.aw_empty (StaticFacts.new_writer ".tmp-token"%string 1%N)
+                        (StaticFacts.new_writer ".tmp-token"%string 2%N) = Some (fs, a, b) /\
+     StaticFacts.target_content "token"%string (Some (fs, a, b)) = Some 0%N).
+Proof. exact C09Static.atomic_write_fixed_refuted. Qed.
+Print Assumptions C09_atomic_write_fixed_name_refuted.
+
+(* The objects shared by all serving threads (radicale/app) carry no per-request state: nothing is assigned to self
+   outside __init__, no mutable object made in __init__ is written later (the two listed entries are reviewed:
+   a per-request Access object, a dict that is only read); the storage back-end opens files for writing only in
+   the three reviewed functions. *)
+Theorem C09_no_shared_request_state :
+  C09Static.shared_mutations = ["assign:Access.parent_permissions:_parent_permissions"%string;
+                                "escape:Application._handle_request:_extra_headers"%string] /\
+  C09Static.write_sites = ["__init__._analyse_mtime"%string; "base._atomic_write"%string; "upload._upload_all_nonatomic"%string].
+Proof. exact (conj C09Static.Gen_no_shared_mutation C09Static.Gen_write_sites). Qed.
+Print Assumptions C09_no_shared_request_state.
